@@ -44,7 +44,7 @@ def gen_sweep_spec(seed: int, q: int, idx: int):
     spec.update(policy=prng.choice(["seq", "random", "race", "sticky"]), listing="perm", collide=b % 3 == 2, name_salt=b % 4, clock_jumps=False, t0=procworld.T0)
     kinds = [k for k in FAULT_KINDS if k != "kill"]
     spec["faults"] = {"kinds": kinds, "p_proc": 1.0, "p_second": 0.0, "horizon": SWEEP_EVENTS}
-    spec["pin"] = {"proc": 0, "ev": 1 + r // SWEEP_ORDS, "ord": r % SWEEP_ORDS}
+    spec["pin"] = {"proc": 0, "ev": 1 + r % SWEEP_EVENTS, "ord": r // SWEEP_EVENTS}  # ordinal-major: every event gets its first fault first
     return spec, [inp, other], prng
 
 
